@@ -43,6 +43,10 @@ def units(tier, seed):
         for dt in ("str", "ordered", "unordered", "tuple-levels"):
             for i in range(0, len(perms), 24):
                 u.append([{"k": "levels", "perm": list(p), "dtype": dt} for p in perms[i : i + 24]])
+    for n in (3, 4):
+        perms = list(itertools.permutations(range(n)))
+        for i in range(0, len(perms), 6):
+            u.append([{"k": "levels", "perm": list(p), "dtype": "str", "long": True} for p in perms[i : i + 6]])
     for f in POOL:
         u.append([{"k": "swap", "f": f}])
     u.append([{"k": "shared-encoding"}])
@@ -126,6 +130,8 @@ def check_levels(case, acc):
     base = names[: len(perm)]
     lv = [base[i] for i in perm]  # noqa: F841 (the formula refers to it)
     col = base + base[::-1] + base[:1]
+    if case.get("long"):  # more than a thousand rows
+        col = col * (1100 // len(col) + 1)
     df = pd.DataFrame({"v": col, "y": np.arange(len(col)) * 1.0})
     if case.get("dtype") == "ordered":  # the dtype has its own order: an explicit levels= must still win
         df["v"] = pd.Categorical(df["v"], categories=base[::-1], ordered=True)
